@@ -475,6 +475,9 @@ def main(harness_name, argv=None):
         "unit_level_counterexamples": [{"signature": c["signature"], "replay": p, "confirmed_at_unit_level": bool(rep.get("unit_confirmed")),
                                         "detail": str(rep.get("detail", ""))[:300]} for c, p, rep in unit_level],
         "harness_errors": harness_errors, "path_errors_sample": errors[:8],
+        "budget_s": budget, "procs": args.procs,
+        "slowest_jobs": [{"job": r.get("job"), "wall_s": r.get("wall"), "paths": r.get("paths"), "solver_s": round(r.get("solver_s", 0.0) + r.get("ob_solver_s", 0.0), 1)}
+                         for r in sorted([r for r in results if "wall" in r], key=lambda r: -r["wall"])[:5]],
     }
     ev = {"property_id": prop, "tier": args.tier, "seed": seed, "level": "other", "coverage": coverage,
           "assumptions": meta.get("assumptions", []), "wall_s": round(wall, 2), "violations": len(violations)}
